@@ -330,7 +330,7 @@ int main(int argc, char** argv) {
     }
     for (int e = 0; e <= max_exec; ++e) { auto* x = new PoolExec(); x->w = w; x->idx = e; w->execs.push_back(x); }
     for (int k = 0; k <= max_fut; ++k) { auto* p = new ::babylon::Promise<int>(); w->promises.push_back(p); w->futures.push_back(p->get_future()); }
-    verif::Options opt; opt.seed = seed; opt.strategy = strategy; opt.max_steps = 400000;
+    verif::Options opt; opt.seed = seed; opt.strategy = strategy; opt.max_steps = 100000;
     if (f.size() > 7 && f[7] != "-") for (auto& c : split(f[7], ',')) opt.choices.push_back(atoi(c.c_str()));
 
     long use0_node = 0, use0_can = 0, use1_node = 0, use1_can = 0; uint32_t slots_end = 0;
